@@ -393,6 +393,8 @@ def model_apply(S_: Side, op):
     return None
   if k in ('add_tag', 'remove_tag', 'set_tags', 'clear_tags'):
     m = S_.target(op)
+    if m.btype == 'TaggedValueCls' and op['arg'] not in ('value', 0):
+      raise Skip()   # tagging the `tags` parameter of a TaggedValue is misuse
     if k == 'add_tag':
       m.add_tag(op['arg'], op['tag'])
     elif k == 'remove_tag':
